@@ -123,6 +123,49 @@ pub fn c07(opts: &Opts, out: &mut Out) {
             out.case(format!("promise substitutions for {}", key));
         }
     }
+    // a promise that does not fit the bit length together with a proof that satisfies the equations for it: the
+    // library's prover cannot make one (it refuses the value), the independent prover driven by the Lean model can
+    // (value 2^n + 5 under promise 2^n + 3 is the bit pattern of 2). The verifier must refuse it at every position.
+    if let Some(mut drv) = crate::scen_wire::Driver::start() {
+        use crate::rrun;
+        for (n, m, t) in [(2usize, 1usize, 1usize), (8, 1, 2), (4, 2, 1)] {
+            let mut bad = rrun::random_inst(n, m, m, t, 4, false, &mut rng);
+            let mut control = bad.clone();
+            for j in 0..m {
+                bad.values[j] = (1u64 << n) + 5 - 2 * (j as u64);
+                bad.promises[j] = Some((1u64 << n) + 3 - 2 * (j as u64));
+                control.values[j] = 5 - 2 * (j as u64);
+                control.promises[j] = Some(3 - 2 * (j as u64));
+            }
+            let ordinary = rrun::random_inst(n, m, m, t, 5, false, &mut rng);
+            let ord_proof = ordinary.prove(&mut rng).expect("prove");
+            let key = format!("oversized promise with an equation-valid proof n={} m={} t={}", n, m, t);
+            let (Some(pb), Some(pc)) = (crate::scen_wire::reference_prove(&mut drv, &bad, &mut rng), crate::scen_wire::reference_prove(&mut drv, &control, &mut rng)) else {
+                out.oracle("C07:reference-prover-ran", false, &key, "the independent prover failed");
+                continue;
+            };
+            let (Ok(pb), Ok(pc)) = (rrun::Proof::from_bytes(&pb), rrun::Proof::from_bytes(&pc)) else {
+                out.oracle("C07:reference-prover-ran", false, &key, "the independent prover's output does not decode");
+                continue;
+            };
+            // control: the same bit pattern under promises that fit is accepted (the independent prover works)
+            let rc = rrun::verify_one(&control, &control.statement(), &pc, VerifyAction::VerifyOnly);
+            out.oracle("C07:reference-prover-ran", rc.is_ok(), &key, "control proof of the independent prover rejected");
+            let Ok(bad_stmt) = bad.statement_with(bad.cap, None) else { continue };
+            for a in rrun::ACTIONS {
+                let r = rrun::verify_one(&bad, &bad_stmt, &pb, a);
+                out.oracle("C07:promise-range-refused", r.is_err(), &format!("{} alone action={:?}", key, a), "a promise of 2^bits or more was accepted");
+                for order in [[0usize, 1], [1, 0]] {
+                    let stmts: Vec<rrun::Stmt> = order.iter().map(|i| if *i == 0 { bad_stmt.clone() } else { ordinary.statement() }).collect();
+                    let proofs: Vec<rrun::Proof> = order.iter().map(|i| if *i == 0 { pb.clone() } else { ord_proof.clone() }).collect();
+                    let mut ts: Vec<_> = order.iter().map(|i| if *i == 0 { bad.transcript() } else { ordinary.transcript() }).collect();
+                    let r = rrun::Proof::verify_batch(&mut ts, &stmts, &proofs, a);
+                    out.oracle("C07:promise-range-refused", r.is_err(), &format!("{} at position {} of two action={:?}", key, order.iter().position(|i| *i == 0).unwrap(), a), "a batch containing a promise of 2^bits or more was accepted");
+                }
+            }
+            classes.insert((n, m, t.min(2), "reference-prover"));
+        }
+    }
     out.stat("substitutions", nsub);
     out.stat("distinct_classes", classes.len());
 }
@@ -490,6 +533,28 @@ pub fn c08(opts: &Opts, out: &mut Out) {
                                     out.oracle("C08:ratio-changes-with-responses", wi2 * wj2.invert() != rho, &key, &format!("the ratio between the factors is the same after changing d1[{}] of member {}", k3, i));
                                 }
                             }
+                        }
+                    }
+                    // alterations that preserve a linear invariant of a member's responses (here: the sum of its d1): a weight
+                    // derivation that sees the d1 only through such an invariant keeps its weights under them
+                    if whole && t >= 2 {
+                        let k2 = (kk + 1) % t;
+                        let zsum = |g: usize, amount: Scalar| -> Vec<Vec<Scalar>> {
+                            let mut o = zero.clone();
+                            o[g][kk] = amount;
+                            o[g][k2] = -amount;
+                            o
+                        };
+                        let (_, rza, _) = run(&zsum(i, delta), &zr);
+                        let (_, rzb, _) = run(&zsum(j, delta), &zr);
+                        let (zi, zj) = (rza.coord(ids.gb[kk]) * delta.invert(), rzb.coord(ids.gb[kk]) * delta.invert());
+                        if zj != Scalar::ZERO {
+                            let mut oz = zsum(i, delta);
+                            let amt = -(delta * zi * zj.invert());
+                            oz[j][kk] = amt;
+                            oz[j][k2] = -amt;
+                            let (okz, _, _) = run(&oz, &zr);
+                            out.oracle("C08:cancelling-defects-rejected", !okz, &key, &format!("batch with sum-preserving equal-and-opposite defects on d1[{}], d1[{}] of members {} and {} ACCEPTED", kk, k2, i, j));
                         }
                     }
                     if !whole {
